@@ -263,6 +263,9 @@ func (f *Font) Widths() []float64 {
 		}
 		return widths
 	case *glyf.Outlines:
+		if outlines.Widths == nil {
+			return nil
+		}
 		for i := range widths {
 			widths[i] = float64(outlines.Widths[i])
 		}
